@@ -146,6 +146,8 @@ pub trait ExpressionReducer {
 
     fn visit_assignment(&mut self, a: Assignment) -> Result<Assignment, LintErrorPos> {
         let (name, v) = a.into();
+        // the left side can hold expressions too (array subscripts)
+        let name = self.visit_expression(name)?;
         Ok(Assignment::new(name, self.visit_expression_pos(v)?))
     }
 
